@@ -75,6 +75,18 @@ def gen(tier, seed, shard, nshards):
             for (a, b) in ((0, pbig - 1), (1, pbig - 2), (0, pbig // 2)):       # a few far-apart pairs left non-adjacent
                 out[order[a]] &= ~(1 << order[b])
             yield "big", {"A": gmat.to_np(out), "seeds": list(range(8))}
+    # complete DAGs on 258 / 514 nodes minus the edge first -> last, as 8-bit matrices: 256 (512) intermediate nodes between the only
+    # non-adjacent pair - counts of two-step walks wrap to 0 in 8-bit arithmetic
+    for wb, (pw, dt) in enumerate(((258, "uint8"), (258, "int8"), (514, "uint8"), (258, "bool"))):
+        if wb % nshards == shard and (tier == "thorough" or pw == 258):
+            rng = util.rng_for("C18", seed, "wrap", pw, dt)
+            order = [int(v) for v in rng.permutation(pw)]
+            out = [0] * pw
+            for a in range(pw):
+                for b in range(a + 1, pw):
+                    out[order[a]] |= 1 << order[b]
+            out[order[0]] &= ~(1 << order[pw - 1])
+            yield "big", {"A": gmat.to_np(out).astype(dt), "seeds": list(range(6))}
     for k in range(N[tier]["random"]):
         if k % nshards == shard:
             rng = util.rng_for("C18", seed, "r", k)
